@@ -472,9 +472,12 @@ def seq_search(ctx, long_run):
     R = vlib.REPO
     exe, log = ctx.cc('h_ring_seq', [os.path.join(vlib.VERIF, 'harness/h_ring_seq.c'), R + '/librfn/ringbuf.c'], ['-O2'], san=False)
     if not exe:
-        ctx.notes.append('h_ring_seq does not compile: ' + log[-400:]); return
+        ctx.broken.append('correspondence: the sequential ring harness (public interface only) does not compile against the tree under check: ' + ' '.join(log.split())[-300:]); return
     cases = [(L, st, max(4 * L, 200000), ctx.seed) for L in (2, 3, 4, 5, 7, 16, 255, 256, 257, 4096, 65535, 65536, 65537, 70001, 131073, 200003)
              for st in (0, L - 1, L // 2)]
+    # rings whose indices pass 2^31 (address space only): start just below 2^31 and just below the end
+    for L in (0x80000001, 0xC0000000, 0xFFFFFFFF, 0x100000000):
+        cases += [(L, st, 4000, ctx.seed) for st in (0x7ffffff0, L - 9, 0)]
     if long_run:
         # > 2^32 bytes through small non-power-of-two rings, several seeds each (data in flight at the roll-over is a matter of phase)
         cases += [(L, 1, (1 << 32) + 100000, ctx.seed * 16 + k) for L in (3, 5, 7) for k in range(4)] + [(6, 1, (1 << 32) + 100000, ctx.seed)]
